@@ -718,6 +718,42 @@ def case_longname(tag, n=250, include=False):
     return [f.cmd() for f in files] + ["load o1 %s" % o, "apply o1 go", exp, "dump o1"]
 
 
+def case_linecount(tag, total, in_include=0, fail_early=False):
+    """a compilation unit whose LAST absolute line (the empty one behind the final newline) is `total`: absolute lines are
+    16 bit, so the compiler accepts the unit up to total = 65535 and refuses it beyond; `in_include` of the lines are in a
+    header included from line 4 of the main file; the failing statement is at the very end (or, `fail_early`, in front
+    of the padding)"""
+    d = "/c18/%s" % tag
+    m = Src("%s/m.c" % d)
+    m.text("int x_;\nvoid set_oid(string s) {}\n")
+    files = [m]
+    used = 0
+    if in_include:
+        h = Src("%s/h.h" % d)
+        h.text("// h\n")
+        h.pad("n", in_include - 2)            # the header contributes in_include absolute lines (its last, empty one included)
+        m.text('#include "h.h"\n')
+        files.append(h)
+        used = in_include
+    body = "int go(int k) {\n  x_ = 10 / k;\n  return 0;\n}\n"
+    if fail_early:
+        ln = m.line + 1
+        m.text(body)
+    # m.line = line the next character goes to = absolute lines of the main file so far + 1
+    rest = total - used - (m.line - 1) - (0 if fail_early else 4) - 1
+    m.pad("n", rest)
+    if not fail_early:
+        ln = m.line + 1
+        m.text(body)
+    assert used + m.line == total, (used, m.line, total)
+    p, o = "%s/m.c" % d.lstrip("/"), "%s/m" % d
+    if total > 65535:
+        return [f.cmd() for f in files] + ["load o1 %s/m" % d,
+                "expectce file=%s line=-1 text=Program_too_large:_more_than_65535_lines" % p]
+    exp = "expect kind=plain file=%s lines=%d-%d program=%s object=%s trace=go@%s@%s@%s@%d-%d" % (p, ln, ln, p, o, p, o, p, ln, ln)
+    return [f.cmd() for f in files] + ["load o1 %s/m" % d, "apply o1 go", exp, "dump o1"]
+
+
 def case_toolarge(tag, nfun=45, nstmt=190):
     """more than 65535 bytes of code (nfun functions of nstmt filler statements, 8 bytes each): function addresses,
     program_size and the offsets find_line works with are 16 bit, so the compiler has to refuse the program"""
@@ -771,7 +807,7 @@ class C18(Prop):
     id = "C18"
     no_shrink = True   # cases are reported exactly as generated (lines depend on each other)
     title = "Runtime errors are reported at the right file and line with a correct trace"
-    lean_modules = ["NV.C18.Props", "NV.C18.PropsCompile", "NV.C18.PropsDump", "NV.C18.PropsOracle", "NV.C18.PropsInit", "NV.C18.PropsLex", "NV.C18.PropsBound", "NV.C18.Witness", "NV.C18.SourceTexts",
+    lean_modules = ["NV.C18.Props", "NV.C18.PropsCompile", "NV.C18.PropsDump", "NV.C18.PropsOracle", "NV.C18.PropsInit", "NV.C18.PropsLex", "NV.C18.PropsBound", "NV.C18.PropsAccept", "NV.C18.Witness", "NV.C18.SourceTexts",
                     "NV.C18.SourceTexts2"]
     theorems = ["NV.C18.line_roundtrip_raw", "NV.C18.line_roundtrip", "NV.C18.long_statement_ok",
                 "NV.C18.file_roundtrip", "NV.C18.file_roundtrip_ids", "NV.C18.file_roundtrip_partial",
@@ -782,7 +818,7 @@ class C18(Prop):
                 "NV.C18.compile_roundtrip", "NV.C18.abs_pos", "NV.C18.abs_mono",
                 "NV.C18.frame_kinds_exhaustive", "NV.C18.dump_trace_matches_svalue_trace", "NV.C18.dtText_spec",
                 "NV.C18.locText_of_ok", "NV.C18.dump_trace_args_lines", "NV.C18.dump_trace_ret_heart_beat",
-                "NV.C18.lex_push_agrees", "NV.C18.lex_pop_agrees", "NV.C18.lex_final_agrees", "NV.C18.node_line_agrees", "NV.C18.translate_eq_positions", "NV.C18.init_block_roundtrip", "NV.C18.placeNotes_runFrom", "NV.C18.findRun_append_out", "NV.C18.file_roundtrip_global_include", "NV.C18.scan_unbounded", "NV.C18.scan_bound_harmless", "NV.C18.size_field_exact", "NV.C18.psizeRejects_iff", "NV.C18.pass2_agrees", "NV.C18.source_statements_agree2"]
+                "NV.C18.lex_push_agrees", "NV.C18.lex_pop_agrees", "NV.C18.lex_final_agrees", "NV.C18.node_line_agrees", "NV.C18.translate_eq_positions", "NV.C18.init_block_roundtrip", "NV.C18.placeNotes_runFrom", "NV.C18.findRun_append_out", "NV.C18.file_roundtrip_global_include", "NV.C18.compile_roundtrip_accepted", "NV.C18.lines_accepted_fit", "NV.C18.code_accepted_fit", "NV.C18.file_id_scan_agrees", "NV.C18.fileIdFor_uses_scan", "NV.C18.scan_unbounded", "NV.C18.scan_bound_harmless", "NV.C18.size_field_exact", "NV.C18.psizeRejects_iff", "NV.C18.pass2_agrees", "NV.C18.source_statements_agree2"]
     witness_theorems = ["NV.C18.file_roundtrip_Full_false", "NV.C18.line_roundtrip_Full_false",
                         "NV.C18.reinclude_wrong", "NV.C18.reinclude_repaired", "NV.C18.wide_wrong", "NV.C18.signed_short_wrong",
                         "NV.C18.init_block_only_noted", "NV.C18.init_replay", "NV.C18.heart_beat_ret_before_fix", "NV.C18.bounded_scan_fails_above_64k"]
@@ -794,7 +830,9 @@ class C18(Prop):
               ("nodeLineBits", "8*sizeof(((parse_node_t*)0)->line)"),
               ("fileInfoBits", "8*sizeof(*((program_t*)0)->file_info)"),
               ("lineInfoLenBits", "8*sizeof(*((program_t*)0)->line_info)"),
-              ("aInitLines", "A_INIT_LINES")]
+              ("aInitLines", "A_INIT_LINES"), ("ushrtMax", "USHRT_MAX"),
+              ("szUShort", "sizeof(unsigned short)"), ("szShort", "sizeof(short)"), ("szPtr", "sizeof(void *)"),
+              ("szInt", "sizeof(int)"), ("szChar", "sizeof(char)")]
     const_headers = ["src/interpret.h", "lpc/program.h", "lpc/compiler.h", "lpc/program/parse_trees.h"]
     quick_n = 500
     thorough_n = 5000
@@ -992,6 +1030,60 @@ class C18(Prop):
                 if re.match(r"^next_node->line = \(short\)\((.+)\)$", st["srcNodeLine"][0]) else "?", "parse_trees:new_node"),
         ]
 
+    def accept_tests(self):
+        """epilog(): `if (... && A + B + 8 > USHRT_MAX) yyerror ("Program too large: ... bytes of code")` and
+        `if (... && current_line_base + current_line > USHRT_MAX) yyerror ("Program too large: ... lines")`"""
+        comp = open(os.path.join(E.REPO, "lib/lpc/compiler.c")).read()
+        eb = self._body(comp, "static program_t *epilog ()", "epilog")
+        ops = r"(<=|>=|==|!=|<|>)"
+        mc = re.search(r"mem_block\[A_PROGRAM\]\.current_size\s*\+\s*mem_block\[A_INITIALIZER\]\.current_size\s*\+\s*(\d+)\s*%s\s*USHRT_MAX\s*\)\s*yyerror\s*\(\s*\"Program too large" % ops, eb)
+        ml = re.search(r"current_line_base\s*\+\s*current_line\s*%s\s*USHRT_MAX\s*\)\s*yyerror\s*\(\s*\"Program too large" % ops, eb)
+        if not mc:
+            raise X.TieBroken("epilog:code-size", "the refusal of a program with more than 65535 bytes of code no longer has a known shape")
+        if not ml:
+            raise X.TieBroken("epilog:line-count", "the refusal of a unit with more than 65535 lines no longer has a known shape")
+        return ["/-- C (lib/lpc/compiler.c, epilog): `%s …` — is a unit with `p` bytes of function code and `i` bytes of initialiser code refused? -/" % mc.group(0)[:90].replace("\n", " "),
+                "def codeRefused (p : Nat) (i : Nat) : Bool := decide (p + i + %s %s ushrtMax)" % (mc.group(1), self.LEAN_OP[mc.group(2)]),
+                "/-- C (lib/lpc/compiler.c, epilog): `%s …` — is a unit refused whose lexer ends with these counters? -/" % ml.group(0)[:70].replace("\n", " "),
+                "def linesRefused (base : Int) (cur : Int) : Bool := decide (base + cur %s (ushrtMax : Int))" % self.LEAN_OP[ml.group(1)]]
+
+    SIZEOF = {"unsigned short": "szUShort", "short": "szShort", "int": "szInt", "char": "szChar", "unsigned char": "szChar"}
+
+    def fileid_scan(self):
+        """program_file_id (or a helper of it): `n = mem_block[A_FILE_INFO].current_size / sizeof (X); for (i = A; i < n; i += S)
+        if (fi[i] == (CAST) file_id)` -> start index, step, what `sizeof (X)` is (a type, `*fi`, or — wrongly — the pointer
+        `fi`), width of the cast"""
+        comp = open(os.path.join(E.REPO, "lib/lpc/compiler.c")).read()
+        i = comp.find("static short store_prog_string_again")
+        j = comp.find("\nint add_program_file (")
+        if i < 0 or j < 0:
+            raise X.TieBroken("program_file_id", "region store_prog_string_again .. add_program_file not found")
+        reg = re.sub(r"(?s)/\*.*?\*/", "", comp[i:j])
+        mn = re.search(r"n\s*=\s*mem_block\[A_FILE_INFO\]\.current_size\s*/\s*sizeof\s*\(\s*([^)]+?)\s*\)", reg)
+        mf = re.search(r"for\s*\(\s*i\s*=\s*(\d+)\s*;\s*i\s*(<|<=)\s*n\s*;\s*i\s*\+=\s*(\d+)\s*\)\s*\{?\s*if\s*\(\s*fi\s*\[\s*i\s*\]\s*==\s*\(\s*([a-z ]+?)\s*\)\s*file_id\s*\)", reg)
+        md = re.search(r"([a-z ]+?)\s*\*\s*fi\s*=", reg)
+        if not (mn and mf and md):
+            raise X.TieBroken("program_file_id:scan", "the scan of A_FILE_INFO for a used file id no longer has the shape n = size / sizeof (X); for (i = A; i < n; i += S) if (fi[i] == (T) file_id)")
+        x = mn.group(1).strip()
+        elem = md.group(1).strip()
+        if x in self.SIZEOF:
+            div = self.SIZEOF[x]
+        elif x == "*fi" and elem in self.SIZEOF:
+            div = self.SIZEOF[elem]
+        elif x == "fi":
+            div = "szPtr"
+        else:
+            raise X.TieBroken("program_file_id:scan", "sizeof (%s) not understood" % x)
+        if mf.group(4).strip() not in self.SIZEOF or elem not in self.SIZEOF:
+            raise X.TieBroken("program_file_id:scan", "cast / element type not understood")
+        return ["/-- C (lib/lpc/compiler.c, program_file_id): `%s` and `%s` -/" % (mn.group(0), re.sub(r"\s+", " ", mf.group(0))),
+                "def fidScanStart : Nat := %s" % mf.group(1),
+                "def fidScanIncl : Bool := %s" % ("true" if mf.group(2) == "<=" else "false"),
+                "def fidScanStep : Nat := %s" % mf.group(3),
+                "def fidEntries (bytes : Nat) : Nat := bytes / %s" % div,
+                "def fidElemBytes : Nat := %s" % self.SIZEOF[elem],
+                "def fidCastMod : Nat := 2 ^ (8 * %s)" % self.SIZEOF[mf.group(4).strip()]]
+
     def source_statements2(self):
         """regions tied in the extend round (frozen copies in NV/C18/SourceTexts2.lean)"""
         R = lambda *p: open(os.path.join(E.REPO, *p)).read()
@@ -1080,6 +1172,10 @@ class C18(Prop):
         out.append("def splitBound : Nat := %s" % m.group(2))
         out.append("def splitLen : Nat := %s" % m2[0])
         out.append("def splitDec : Nat := %s" % m3.group(1))
+        out.append("\n/-! the size tests of epilog(): which compilation units are refused -/")
+        out += self.accept_tests()
+        out.append("\n/-! the scan of A_FILE_INFO for a file id that is already in use (program_file_id) -/")
+        out += self.fileid_scan()
         out.append("\n/-! the lexer's line arithmetic, transcribed statement by statement -/")
         out += self.lexer_arithmetic()
         out.append("\n/-! the statements the model was written from, as they are in the source now -/")
@@ -1151,6 +1247,11 @@ class C18(Prop):
             if rng.chance(1, 14):
                 v = rng.choice(["again", "self", "back"])
                 out.append(E.Case("g%d" % i, case_multi_include(tag, v, rng), {"fail": "reinclude", "origin": "generated"}))
+                continue
+            if rng.chance(1, 60):
+                tot = rng.choice([65533, 65534, 65535, 65536, 65537, 65600, 131072 + rng.range(0, 40)])
+                out.append(E.Case("g%d" % i, case_linecount(tag, tot, in_include=rng.choice([0, 0, 7, 20000, 65000]), fail_early=rng.chance(1, 3)),
+                                  {"fail": "div" if tot <= 65535 else "compile-error", "origin": "generated", "maxline": tot}))
                 continue
             if rng.chance(1, 40):
                 lines = case_overlap(tag, rng.choice(["main", "inc"]), rng.range(0, 400))
@@ -1266,10 +1367,13 @@ class C18(Prop):
         mk("program-too-large", case_toolarge("b_toolarge"), fail="compile-error")
         mk("ginc-init", ["mode ginc"] + case_init("b_ginc_init", pad=5, funcs=1), fail="init")
         mk("ginc-multi-include", ["mode ginc"] + case_multi_include("b_ginc_mi", "back"), fail="reinclude")
-        g = Gen(rng, "b_wide", warn=False, ginc=False)
-        mk("wide70000", g.build(fail_kind="div", depth=0, nchild=1, nbase=0, binary=False, prepad=("n", 70000), kind="wide",
-                                other=False, override=False, via="apply", rep=1),
-           **g.meta)
+        # 16 bit absolute lines: the unit is accepted up to 65535 absolute lines and refused beyond (fix of finding C18-F3)
+        for name, kw in (("lines-65535-accepted", dict(total=65535)), ("lines-65536-refused", dict(total=65536)),
+                         ("lines-65535-include", dict(total=65535, in_include=30000)),
+                         ("lines-65536-include-refused", dict(total=65536, in_include=40000)),
+                         ("lines-70040-refused", dict(total=70040, fail_early=True)),
+                         ("lines-65500-early", dict(total=65500, fail_early=True))):
+            mk(name, case_linecount("b_" + name.replace("-", "_"), **kw), fail="div" if kw["total"] <= 65535 else "compile-error")
         mk("init", case_init("b_init"), fail="init")
         mk("init-after-functions", case_init("b_init2", pad=40, funcs=3), fail="init")
         mk("init-same-line-as-function", case_init("b_init5", pad=4, funcs=1, sameline=True), fail="init")
